@@ -180,7 +180,7 @@ def probe(ctx):
         exc = call_quiet(C.add_node, 1234)
         if exc is not None or 1234 not in C.nodes:
             ctx.violation(f"{cname}.copy", "copy-not-editable", {"class": cname}, detail=f"copy of a frozen network not editable: {exc!r}")
-        if cls is not xgi.DiHypergraph:
+        if True:   # all three classes: a class subhypergraph() does not support simply raises and is skipped
             import inspect as _insp
             params = _insp.signature(xgi.subhypergraph).parameters
             variants = [dict(nodes=[0, 1, 2, 3]), dict(edges=list(build(cls, rng).edges)[:2]), dict(nodes=[0, 1, 2, 3, 9], edges=list(build(cls, rng).edges)[:2]), dict()]
@@ -202,6 +202,49 @@ def probe(ctx):
                     if not S.is_frozen or not isinstance(exc, XGIError) or not isinstance(exc2, XGIError) or structure(S) != b:
                         ctx.violation("subhypergraph", "result-not-frozen", {"class": cname, "kwargs": repr(kw)},
                                       detail=f"subhypergraph({kw}) result: is_frozen={S.is_frozen}, add_node -> {exc!r}, remove_node -> {exc2!r}")
+    # library functions that (re)populate an existing instance passed as `create_using`: on a frozen instance they must
+    # raise the library's error and leave it unchanged (discovered by introspection)
+    import inspect as _insp2
+    datas = [None, [[7, 8], [8, 9]], {"a": [7, 8]}, 3]
+    for fname in sorted(dir(xgi)):
+        f = getattr(xgi, fname, None)
+        if fname.startswith("_") or not callable(f) or _insp2.isclass(f):
+            continue
+        try:
+            sig = _insp2.signature(f)
+        except (TypeError, ValueError):
+            continue
+        if "create_using" not in sig.parameters:
+            continue
+        for cls in (xgi.Hypergraph, xgi.DiHypergraph, xgi.SimplicialComplex):
+            cname = cls.__name__
+            for data in datas:
+                npos = [p for p in sig.parameters.values() if p.default is p.empty and p.kind in (p.POSITIONAL_ONLY, p.POSITIONAL_OR_KEYWORD)]
+                args = [data] * len(npos) if npos else []
+                if data is None and npos:
+                    continue
+                A = build(cls, rng)
+                before = structure(A)
+                excA = call_quiet(f, *args, create_using=A)
+                ctx.evaluations += 1
+                if structure(A) == before:
+                    continue      # did not touch the instance with these arguments (or refused them)
+                found_key = f"xgi.{fname}(create_using=)"
+                mutators.setdefault(cname, [])
+                if found_key not in mutators[cname]:
+                    mutators[cname].append(found_key)
+                B = build(cls, rng)
+                B.freeze()
+                before = structure(B)
+                excB = call_quiet(f, *args, create_using=B)
+                case = {"class": cname, "create_using_function": fname, "data": repr(data)}
+                if structure(B) != before:
+                    ctx.violation(f"xgi.{fname}(create_using=)", "frozen-network-mutated", case,
+                                  detail=f"xgi.{fname}({', '.join(map(repr, args))}, create_using=<frozen {cname}>) changed the frozen network (raised: {type(excB).__name__ if excB else None})")
+                elif not isinstance(excB, XGIError):
+                    ctx.violation(f"xgi.{fname}(create_using=)", "frozen-no-library-error", case,
+                                  detail=f"xgi.{fname}(…, create_using=<frozen {cname}>) raised {type(excB).__name__ if excB else 'nothing'} instead of XGIError")
+                break
     ctx.extra["structural_mutators_found_by_probing"] = mutators
     return mutators
 
